@@ -59,7 +59,7 @@ def assumptions_of(vfile):
 
 def theorem_names(vfile):
     p = os.path.join(common.VERIF, "coq", vfile)
-    return re.findall(r"^(?:Theorem|Lemma|Example|Corollary)\s+([A-Za-z_][\w']*)", open(p).read(), flags=re.M)
+    return re.findall(r"^\s*(?:Theorem|Lemma|Example|Corollary)\s+([A-Za-z_][\w']*)", open(p).read(), flags=re.M)
 
 
 def main(argv):
